@@ -200,7 +200,7 @@ Section Sound.
     (s_magic s' = 0 /\ s_in s' = [] /\
        forall lacc F, (length (s_in s) < F)%nat -> legacy_blocks bd F lacc (s_in s) = Some (lacc ++ c, []))
     \/ (exists hdr, length hdr = 4%nat /\ le_val hdr = s_magic s' /\ LZ4IO_LEGACY_BOUND < s_magic s' /\
-          (length (s_in s') + 4 <= length (s_in s))%nat /\
+          (exists pre, s_in s = pre ++ hdr ++ s_in s') /\
           forall lacc F, (length (s_in s) < F)%nat -> is_magic (s_magic s') = true ->
              legacy_blocks bd F lacc (s_in s) = Some (lacc ++ c, hdr ++ s_in s')).
 
@@ -234,7 +234,7 @@ Section Sound.
       split; [cbn; exact Fc|]. exists []. split; [cbn; rewrite app_nil_r; exact K1a|].
       right. exists hdr. cbn [s_magic s_in set_magic].
       split; [unfold len in E4; lia|]. split; [reflexivity|]. split; [exact EB|].
-      split; [rewrite Fb, skipn_length; lia|].
+      split; [exists []; cbn [app]; rewrite Fb, Fa; symmetry; apply firstn_skipn|].
       intros lacc F LF IM. destruct F; [lia|]. cbn [legacy_blocks].
       destruct (s_in s) as [|b0 r0] eqn:EI; [cbn in L4; lia|]. rewrite <- EI in *.
       rewrite (take_firstn _ 4 L4). rewrite <- Fa. rewrite IM. rewrite app_nil_r. rewrite Fb. rewrite Fa.
@@ -279,7 +279,10 @@ Section Sound.
       rewrite <- Fe, <- Wb. rewrite app_assoc. apply HI. lia. }
     destruct P4 as [[Pa [Pb Pc]]|[h [Pa [Pb [Pc [Pd Pe]]]]]].
     - left. split; [exact Pa|]. split; [exact Pb|]. intros lacc F LF. apply STEP; [exact LF|]. intros F' LF'. apply Pc. exact LF'.
-    - right. exists h. split; [exact Pa|]. split; [exact Pb|]. split; [exact Pc|]. split; [lia|].
+    - right. exists h. split; [exact Pa|]. split; [exact Pb|]. split; [exact Pc|].
+      split.
+      { destruct Pd as [pre' Pd]. exists (firstn 4 (s_in s) ++ firstn (Z.to_nat (le_val hdr)) (s_in s1) ++ pre').
+        rewrite <- !app_assoc. rewrite <- Pd, Wb, Fe. rewrite firstn_skipn. rewrite Fb. rewrite firstn_skipn. reflexivity. }
       intros lacc F LF IM. apply STEP; [exact LF|]. intros F' LF'. apply Pe; [exact LF'|exact IM].
   Qed.
 
@@ -449,7 +452,7 @@ Section Sound.
 
   Definition frame_post (test : bool) (s sd : st) (bs : list byte) : Prop :=
     (clean (s_tr s) -> clean (s_tr sd)) /\
-    exists c bs', pending sd bs' /\ (length bs' < length bs)%nat /\
+    exists c bs', pending sd bs' /\ (length bs' < length bs)%nat /\ bytes_ok bs' = true /\
       (test = false -> s_out sd = s_out s ++ c) /\
       (handover_ok sd -> forall acc F, (length bs <= F)%nat ->
           stream_decode bd false (S F) [] acc bs = stream_decode bd false F [] (acc ++ c) bs').
@@ -535,6 +538,7 @@ Section Sound.
       split; [intros C; apply Ff, Fc, C|].
       exists [], (s_in sd). split; [left; split; [rewrite K2b, K1b; exact Z0|reflexivity]|].
       split; [rewrite Fd, skipn_length, Fb, skipn_length, app_length; lia|].
+      split; [rewrite Fd, Fb; apply bytes_ok_skipn, bytes_ok_skipn; exact BI|].
       split; [intros _; rewrite app_nil_r, K2a; exact K1a|].
       intros _ acc F LF. rewrite stream_step_nonempty by exact LBS. cbv zeta. rewrite FH, SH. fold m.
       unfold is_skippable in SK. rewrite skippable_mask_range in SK by exact RM.
@@ -555,7 +559,7 @@ Section Sound.
           assert (ES : s1 = sd) by (inversion H; reflexivity). subst s1. clear H.
           destruct (lz4f_mt_ok _ _ _ E BI) as [M [Ka [Kb [Kc [Kr [C [c [O SP]]]]]]]].
           split; [exact C|]. exists c, []. split; [left; split; [rewrite Kb; exact Z0|symmetry; exact Ka]|].
-          split; [rewrite app_length; cbn [length]; lia|]. split; [intros _; exact O|].
+          split; [rewrite app_length; cbn [length]; lia|]. split; [reflexivity|]. split; [intros _; exact O|].
           intros _ acc F LF. rewrite HM. rewrite SP by (rewrite HM in LF; rewrite app_length in LF; cbn in LF; cbn; lia).
           destruct F; [lia|]. cbn. reflexivity.
         * destruct (lz4f_st fdec test fl s) as [[] s1|] eqn:E; cbn [lift] in H; [|discriminate].
@@ -564,7 +568,8 @@ Section Sound.
           split; [exact C|]. exists c, (s_in sd). split; [left; split; [rewrite Kb; exact Z0|reflexivity]|].
           rewrite <- HM in FD.
           destruct (frame_decode_suffix _ _ _ _ _ _ FD) as [pre [EP [LP _]]].
-          split; [rewrite EP, app_length; lia|]. split; [exact O|].
+          split; [rewrite EP, app_length; lia|].
+          split; [rewrite EP in BO; rewrite bytes_ok_app in BO; apply andb_true_iff in BO; tauto|]. split; [exact O|].
           intros _ acc F LF. rewrite stream_step_nonempty by exact LBS. cbv zeta. rewrite FH. fold m.
           change MAGIC with LZ4IO_MAGICNUMBER. rewrite EM. rewrite Z.eqb_refl. rewrite FD. reflexivity.
       + destruct (m =? LEGACY_MAGICNUMBER) eqn:EL.
@@ -582,11 +587,14 @@ Section Sound.
             rewrite LB. reflexivity. }
           destruct P as [[Pa [Pb Pc]]|[h [Pa [Pb [Pc [Pd Pe]]]]]].
           -- exists c, []. split; [left; split; [exact Pa|symmetry; exact Pb]|].
-             split; [rewrite app_length; cbn [length]; lia|]. split; [intros _; exact O|].
+             split; [rewrite app_length; cbn [length]; lia|]. split; [reflexivity|]. split; [intros _; exact O|].
              intros _ acc F LF. apply STEP; [exact LF|]. apply Pc. lia.
           -- exists c, (h ++ s_in sd).
              split; [right; exists h; split; [exact Pa|]; split; [exact Pb|]; split; [unfold LZ4IO_LEGACY_BOUND in Pc; lia|reflexivity]|].
-             split; [rewrite !app_length; lia|]. split; [intros _; exact O|].
+             destruct Pd as [pre0 Pd].
+             split; [rewrite (app_length hdr), Pd, !app_length; lia|].
+             split; [rewrite Pd in BI; rewrite bytes_ok_app in BI; apply andb_true_iff in BI; tauto|].
+             split; [intros _; exact O|].
              intros HO acc F LF. apply STEP; [exact LF|]. apply Pe; [lia|]. apply HO. unfold LZ4IO_LEGACY_BOUND in Pc. lia.
         * (* unknown magic number *)
           destruct (m =? LZ4IO_SKIPPABLE0) eqn:E0.
@@ -628,9 +636,9 @@ Section Sound.
         { rewrite EB, Fa, Fb. symmetry. apply firstn_skipn. }
         rewrite EQ in BO.
         destruct (dispatch_ok _ _ _ _ mn mn s1 sd H ltac:(unfold len in E4; lia) ltac:(rewrite K1b; exact Z0) BO G)
-          as [C [c [bs' [P' [LL [O SP]]]]]].
+          as [C [c [bs' [P' [LL [BB [O SP]]]]]]].
         split; [intros CC; apply C, Fc, CC|]. exists c, bs'. rewrite EQ.
-        split; [exact P'|]. split; [exact LL|]. split; [intros T; rewrite (O T), K1a; reflexivity|exact SP].
+        split; [exact P'|]. split; [exact LL|]. split; [exact BB|]. split; [intros T; rewrite (O T), K1a; reflexivity|exact SP].
     - (* the magic number was handed over by the legacy decoder *)
       replace (s_magic s0 =? 0) with false in H by (symmetry; apply Z.eqb_neq; exact NZ). cbn [negb] in H.
       cbn [s0 set_nb s_magic] in H. rewrite <- EV in H. rewrite EB in BO.
@@ -639,8 +647,252 @@ Section Sound.
       split; [intros D; subst d; exfalso; apply ND; reflexivity|].
       intros D G. subst d.
       match type of H with dispatch _ _ _ _ _ _ _ _ _ ?sx = _ =>
-        destruct (dispatch_ok _ _ _ _ hdr [] sx sd H L4 eq_refl BO G) as [C [c [bs' [P' [LL [O SP]]]]]] end.
+        destruct (dispatch_ok _ _ _ _ hdr [] sx sd H L4 eq_refl BO G) as [C [c [bs' [P' [LL [BB [O SP]]]]]]] end.
       cbn [set_magic set_nb s_in s_out s_tr s_rerr s_pasteof] in *.
-      split; [exact C|]. exists c, bs'. rewrite EB. split; [exact P'|]. split; [exact LL|]. split; [exact O|exact SP].
+      split; [exact C|]. exists c, bs'. rewrite EB. split; [exact P'|]. split; [exact LL|]. split; [exact BB|]. split; [exact O|exact SP].
+  Qed.
+
+  (* ---------------------------------------------------------------- the frame loop *)
+  Lemma select_mono : forall mt test seekable fl s sd d,
+    select_decoder fdec bdec mt test false seekable fl s = Ret d sd ->
+    mono s sd /\ (d = DEnd -> s_rerr sd = false).
+  Proof.
+    intros mt test seekable fl s sd d H. unfold select_decoder in H.
+    set (s0 := set_nb (s_nbFrames s + 1) s) in *.
+    destruct (negb (s_magic s0 =? 0)).
+    - destruct (dispatch_mono _ _ _ _ _ _ _ _ _ H) as [M ND].
+      split; [destruct M as [A B]; split; [exact A|exact B]|]. intros D; subst d; exfalso; apply ND; reflexivity.
+    - destruct (fread fl MAGICNUMBER_SIZE s0) as [mn s1] eqn:R1.
+      destruct (fread_ok _ _ _ _ _ R1) as [M1 _].
+      assert (M01 : mono s s1) by (destruct M1 as [A B]; split; [exact A|exact B]).
+      destruct (len mn =? 0).
+      + destruct (s_rerr s1) eqn:RE; [discriminate|]. inversion H; subst d sd; clear H.
+        split; [destruct M01; split; auto|]. intros _. exact RE.
+      + destruct (negb (len mn =? MAGICNUMBER_SIZE)); [discriminate|].
+        destruct (dispatch_mono _ _ _ _ _ _ _ _ _ H) as [M ND].
+        split; [eapply mono_trans; [exact M01|exact M]|]. intros D; subst d; exfalso; apply ND; reflexivity.
+  Qed.
+
+  Lemma frames_loop_mono : forall fuel mt test seekable fl s s',
+    frames_loop fdec bdec fuel mt test false seekable fl s = Ret 0 s' -> mono s s' /\ s_rerr s' = false.
+  Proof.
+    induction fuel; intros mt test seekable fl s s' H; cbn [frames_loop] in H; [discriminate|].
+    destruct (select_decoder fdec bdec mt test false seekable fl s) as [d sd|] eqn:SE; [|discriminate].
+    destruct (select_mono _ _ _ _ _ _ _ SE) as [M RE].
+    destruct d.
+    - apply IHfuel in H. destruct H as [M2 R2]. split; [eapply mono_trans; [exact M|exact M2]|exact R2].
+    - inversion H; subst s'. split; [exact M|apply RE; reflexivity].
+    - inversion H.
+  Qed.
+
+  Lemma frames_ret0_magic : forall fuel mt test seekable fl s s',
+    frames_loop fdec bdec fuel mt test false seekable fl s = Ret 0 s' ->
+    s_magic s <> 0 -> 0 <= s_magic s < 4294967296 -> is_magic (s_magic s) = true.
+  Proof.
+    intros fuel mt test seekable fl s s' H NZ R.
+    destruct fuel; cbn [frames_loop] in H; [discriminate|].
+    unfold select_decoder in H. cbn [set_nb s_magic] in H.
+    replace (s_magic s =? 0) with false in H by (symmetry; apply Z.eqb_neq; exact NZ). cbn [negb] in H.
+    unfold dispatch in H.
+    destruct (is_skippable (s_magic s)) eqn:SK; [apply is_skippable_magic; assumption|].
+    destruct (s_magic s =? LZ4IO_MAGICNUMBER) eqn:E1.
+    { apply Z.eqb_eq in E1. rewrite E1. reflexivity. }
+    destruct (s_magic s =? LEGACY_MAGICNUMBER) eqn:E2.
+    { apply Z.eqb_eq in E2. rewrite E2. reflexivity. }
+    destruct (s_magic s =? LZ4IO_SKIPPABLE0) eqn:E3.
+    { apply Z.eqb_eq in E3. rewrite E3. reflexivity. }
+    cbn [set_magic set_nb s_nbFrames] in H.
+    destruct (s_nbFrames s + 1 =? 1); cbn [andb] in H; inversion H.
+  Qed.
+
+  Lemma frames_loop_ok : forall fuel mt test seekable fl s s' bs,
+    frames_loop fdec bdec fuel mt test false seekable fl s = Ret 0 s' ->
+    pending s bs -> bytes_ok bs = true -> s_pasteof s' = false ->
+    (clean (s_tr s) -> clean (s_tr s')) /\
+    exists c, (test = false -> s_out s' = s_out s ++ c) /\
+      forall acc, stream_decode bd false (S (length bs)) [] acc bs = Some (acc ++ c).
+  Proof.
+    induction fuel; intros mt test seekable fl s s' bs H P BO PE; cbn [frames_loop] in H; [discriminate|].
+    destruct (select_decoder fdec bdec mt test false seekable fl s) as [d sd|] eqn:SE; [|discriminate].
+    destruct (select_ok _ _ _ _ _ _ _ _ SE P BO) as [M [DE DF]].
+    destruct d.
+    - (* one more frame *)
+      destruct (frames_loop_mono _ _ _ _ _ _ _ H) as [M2 R2].
+      assert (G' : good s') by (split; assumption).
+      assert (G : good sd) by (eapply good_back; [exact M2|exact G']).
+      destruct (DF eq_refl G) as [C [c [bs' [P' [LL [BB [O SP]]]]]]].
+      destruct (IHfuel _ _ _ _ _ _ _ H P' BB PE) as [C' [c' [O' SP']]].
+      split; [intros CC; apply C', C, CC|].
+      exists (c ++ c'). split; [intros T; rewrite (O' T), (O T), app_assoc; reflexivity|].
+      intros acc.
+      assert (HO : handover_ok sd).
+      { intros NZ. eapply frames_ret0_magic; [exact H|exact NZ|].
+        destruct P' as [[Z0 _]|[h [L4 [EV [_ EB]]]]]; [exfalso; apply NZ; exact Z0|].
+        rewrite <- EV. apply le_val_4_range; [|exact L4].
+        rewrite EB in BB. rewrite bytes_ok_app in BB. apply andb_true_iff in BB. tauto. }
+      rewrite (SP HO acc (length bs) (le_n _)).
+      rewrite app_assoc. eapply stream_decode_mono; [apply SP'|lia].
+    - (* end of stream *)
+      inversion H; subst s'; clear H.
+      destruct (DE eq_refl) as [RE DD]. destruct (DD RE) as [EB [O C]].
+      split; [exact C|]. exists []. split; [intros _; rewrite app_nil_r; exact O|].
+      intros acc. rewrite EB. cbn. rewrite app_nil_r. reflexivity.
+    - inversion H.
   Qed.
 End Sound.
+
+(* ------------------------------------------------------------------ END_PROCESS never exits with status 0 *)
+Section DieNonzero.
+  Variable fdec : list byte -> option (list byte * list byte).
+  Variable bdec : list byte -> option (list byte).
+
+  Ltac dz H := inversion H; subst; unfold FUEL; lia.
+
+  Lemma legacy_loop_die : forall fuel mt fl s c s', legacy_loop bdec fuel mt fl s = Die c s' -> c <> 0.
+  Proof.
+    induction fuel; intros mt fl s c s' H; cbn [legacy_loop] in H; [dz H|].
+    destruct (fread fl IO_LEGACY_BLOCK_HEADER_SIZE s) as [hdr s1].
+    destruct (len hdr =? 0); [discriminate|].
+    destruct (negb (len hdr =? IO_LEGACY_BLOCK_HEADER_SIZE)); [destruct mt; dz H|].
+    destruct (LZ4IO_LEGACY_BOUND <? le_val hdr); [discriminate|].
+    destruct (fread fl (le_val hdr) s1) as [blk s2].
+    destruct (negb (len blk =? le_val hdr)); [dz H|].
+    destruct (bdec blk) as [c0|]; [|dz H].
+    destruct (LEGACY_BLOCKSIZE <? len c0); [dz H|].
+    destruct (fwrite fl c0 s2) as [ok s3]. destruct ok; [eapply IHfuel; exact H|dz H].
+  Qed.
+
+  Lemma legacy_die : forall mt fl s c s', legacy bdec mt fl s = Die c s' -> c <> 0.
+  Proof.
+    intros mt fl s c s' H. unfold legacy in H.
+    destruct (legacy_loop bdec (S (length (s_in s))) mt fl s) as [[] s1|c1 s1] eqn:E.
+    - destruct (s_rerr s1); [dz H|discriminate].
+    - inversion H; subst. eapply legacy_loop_die; exact E.
+  Qed.
+
+  Lemma lz4f_st_die : forall test fl s c s', lz4f_st fdec test fl s = Die c s' -> c <> 0.
+  Proof.
+    intros test fl s c s' H. unfold lz4f_st in H.
+    destruct (fdec _) as [[c0 rest]|]; [|dz H].
+    destruct (match f_rlimit fl with Some lim => _ | None => false end).
+    - destruct (fread fl _ s). dz H.
+    - destruct test; [discriminate|]. match type of H with context [fwrite fl c0 ?x] => destruct (fwrite fl c0 x) as [ok s2] end.
+      destruct ok; [discriminate|dz H].
+  Qed.
+
+  Lemma mt_frames_die : forall fuel fl data s c s', mt_frames fdec fuel fl data s = Die c s' -> c <> 0.
+  Proof.
+    induction fuel; intros fl data s c s' H; cbn [mt_frames] in H; [dz H|].
+    destruct data as [|d0 dr] eqn:ED; [discriminate|]. rewrite <- ED in *. clear ED.
+    destruct (len data <? minFHSize); [dz H|].
+    destruct (Z.land _ _ =? _).
+    - destruct (len data <? 8); [dz H|]. destruct (len data - 8 <? _); [dz H|]. eapply IHfuel; exact H.
+    - destruct (_ =? LZ4IO_MAGICNUMBER); [|dz H].
+      destruct (fdec data) as [[c0 rest]|]; [|dz H].
+      destruct (fwrite fl c0 s) as [ok s1]. destruct ok; [eapply IHfuel; exact H|dz H].
+  Qed.
+
+  Lemma lz4f_mt_die : forall fl s c s', lz4f_mt fdec fl s = Die c s' -> c <> 0.
+  Proof.
+    intros fl s c s' H. unfold lz4f_mt in H.
+    destruct (fread fl (len (s_in s) + 1) s) as [got s1].
+    destruct (s_rerr s1); [dz H|]. eapply mt_frames_die; exact H.
+  Qed.
+
+  Lemma dispatch_die : forall mt test seekable fl magic mn s c s',
+    dispatch fdec bdec mt test false seekable fl magic mn s = Die c s' -> c <> 0.
+  Proof.
+    intros mt test seekable fl magic mn s c s' H. unfold dispatch in H.
+    set (m' := if is_skippable magic then LZ4IO_SKIPPABLE0 else magic) in *. clearbody m'.
+    destruct (m' =? LZ4IO_MAGICNUMBER).
+    { destruct mt.
+      - destruct (lz4f_mt fdec fl s) as [[] s1|c1 s1] eqn:E; cbn [lift] in H; [discriminate|].
+        inversion H; subst. eapply lz4f_mt_die; exact E.
+      - destruct (lz4f_st fdec test fl s) as [[] s1|c1 s1] eqn:E; cbn [lift] in H; [discriminate|].
+        inversion H; subst. eapply lz4f_st_die; exact E. }
+    destruct (m' =? LEGACY_MAGICNUMBER).
+    { destruct (legacy bdec mt fl s) as [[] s1|c1 s1] eqn:E; cbn [lift] in H; [discriminate|].
+      inversion H; subst. eapply legacy_die; exact E. }
+    destruct (m' =? LZ4IO_SKIPPABLE0).
+    { destruct (fread fl 4 s) as [szb s2].
+      destruct (negb (len szb =? 4)); [dz H|].
+      destruct (fseek_u32 6 seekable fl (le_val szb) s2) as [e s3].
+      destruct (e =? 0); [discriminate|]. destruct (e =? FUEL); dz H. }
+    destruct (s_nbFrames s =? 1); [cbn [andb] in H; dz H|discriminate].
+  Qed.
+
+  Lemma select_die : forall mt test seekable fl s c s',
+    select_decoder fdec bdec mt test false seekable fl s = Die c s' -> c <> 0.
+  Proof.
+    intros mt test seekable fl s c s' H. unfold select_decoder in H.
+    destruct (negb (s_magic _ =? 0)); [eapply dispatch_die; exact H|].
+    destruct (fread fl MAGICNUMBER_SIZE _) as [mn s1].
+    destruct (len mn =? 0); [destruct (s_rerr s1); [dz H|discriminate]|].
+    destruct (negb (len mn =? MAGICNUMBER_SIZE)); [dz H|]. eapply dispatch_die; exact H.
+  Qed.
+
+  Lemma frames_loop_die : forall fuel mt test seekable fl s c s',
+    frames_loop fdec bdec fuel mt test false seekable fl s = Die c s' -> c <> 0.
+  Proof.
+    induction fuel; intros mt test seekable fl s c s' H; cbn [frames_loop] in H; [dz H|].
+    destruct (select_decoder fdec bdec mt test false seekable fl s) as [d sd|c1 s1] eqn:SE.
+    - destruct d; [eapply IHfuel; exact H|discriminate|discriminate].
+    - inversion H; subst. eapply select_die; exact SE.
+  Qed.
+End DieNonzero.
+
+(* ------------------------------------------------------------------ LZ4IO_decompressSrcFile / DstFile *)
+Section Top.
+  Variable bd : list byte -> list byte -> option (list byte).
+  Notation fdec := (frame_decode bd false []).
+  Notation bdec := (bd []).
+
+  Lemma clean_rev : forall tr, clean tr -> clean (rev tr).
+  Proof.
+    intros tr H. unfold clean in *. rewrite forallb_forall in *. intros e HI. apply H. apply in_rev. exact HI.
+  Qed.
+
+  (* C14_exit0_sound, for any block decoder [bd] the spec layer is instantiated with.
+     [o_pasteof o = true] is the case the property leaves unspecified: a successful fseek moved
+     beyond the end of the input (the input ends inside the user data of a skippable frame). *)
+  Theorem exit0_sound : forall mt test seekable rm fl input,
+    bytes_ok input = true ->
+    let o := decompress_file fdec bdec mt test false seekable rm fl input in
+    o_exit o = 0 -> o_pasteof o = false ->
+    clean (o_trace o) /\
+    (rm = true -> o_removed o = true) /\
+    exists c, stream_decode bd false (S (length input)) [] [] input = Some c /\ (test = false -> o_out o = c).
+  Proof.
+    intros mt test seekable rm fl input BO o E0 PE. subst o.
+    unfold decompress_file, decompress_dst in *.
+    destruct (f_open_dst fl); [cbn in E0; lia|].
+    unfold decompress_src in *. cbn [ev s_in st_init] in *.
+    destruct (f_open_src fl).
+    { unfold close_and_remove in E0. destruct (f_close_dst fl); cbn in E0; lia. }
+    match type of E0 with context [frames_loop ?a ?b ?f ?m ?t ?p ?sk ?l ?s] =>
+      destruct (frames_loop a b f m t p sk l s) as [r s2|c s2] eqn:FL end;
+      [|cbn in E0; exfalso; exact (frames_loop_die _ _ _ _ _ _ _ _ _ _ FL E0)].
+    unfold close_and_remove in *.
+    destruct (f_close_dst fl); [cbn in E0; lia|].
+    assert (R0 : r = 0).
+    { destruct (r =? 0) eqn:ER; [apply Z.eqb_eq; exact ER|]. cbn in E0. apply Z.eqb_neq in ER. contradiction. }
+    subst r. cbn [Z.eqb andb] in *.
+    assert (PE2 : s_pasteof s2 = false).
+    { destruct rm; [destruct (f_remove fl)|]; cbn in PE; exact PE. }
+    match type of FL with frames_loop _ _ _ _ _ _ _ _ ?s0 = _ =>
+      destruct (frames_loop_ok bd _ _ _ _ _ s0 s2 input FL) as [C [c [O SP]]] end;
+      [left; split; reflexivity|exact BO|exact PE2|].
+    cbn [s_tr s_out] in C, O.
+    assert (C2 : clean (s_tr s2)) by (apply C; reflexivity).
+    destruct rm.
+    - destruct (f_remove fl); [cbn in E0; lia|].
+      unfold outcome_of. cbn [o_trace o_exit o_out o_removed o_pasteof].
+      split; [apply clean_rev; cbn [ev s_tr]; unfold clean; cbn [forallb clean_ev]; exact C2|].
+      split; [intros _; reflexivity|].
+      exists c. split; [exact (SP [])|]. intros T. cbn [ev s_out]. rewrite (O T). reflexivity.
+    - unfold outcome_of. cbn [o_trace o_exit o_out o_removed o_pasteof].
+      split; [apply clean_rev; cbn [ev s_tr]; unfold clean; cbn [forallb clean_ev]; exact C2|].
+      split; [intros D; discriminate|].
+      exists c. split; [exact (SP [])|]. intros T. cbn [ev s_out]. rewrite (O T). reflexivity.
+  Qed.
+End Top.
